@@ -11,7 +11,8 @@ OPS = ('==', '!=', '<', '<=', '>', '>=')
 
 # contents matchers: (regex, -full?)  - line texts are MARKER + line index (see `lines_strategy`)
 REGEXES = [('x', False), ('y', False), ('^x', False), ('^y', False), ('xy', False), ('^[0-9]', False),
-           ('[13579]$', False), ('[02468]$', False), ('x[0-9]+', True), ('[0-9]+', True), ('1', False)]
+           ('[13579]$', False), ('[02468]$', False), ('x[0-9]+', True), ('[0-9]+', True), ('1', False),
+           (' $', False), ('[0-9]$', False)]
 MARKERS = ['x', 'y', 'xy', '']
 
 
@@ -254,6 +255,12 @@ def lines_strategy(draw, n_max: int):
     lines = ['%s%d' % (MARKERS[draw(_ints(0, len(MARKERS) - 1))], i + 1) for i in range(n)]
     if n > 0 and draw(_ints(0, 1)) == 1 and draw(_ints(0, 1)) == 1:
         lines[draw(_ints(0, n - 1))] = ''
+    # trailing blanks / tabs belong to the contents of a line (only the new-line does not); a line of blanks is not
+    # empty
+    if n > 0 and draw(_ints(0, 2)) == 0:
+        for _ in range(draw(_ints(1, 3))):
+            i = draw(_ints(0, n - 1))
+            lines[i] = lines[i] + [' ', '\t', '  '][draw(_ints(0, 2))]
     return lines
 
 
